@@ -86,7 +86,9 @@ void tuner_case(vt::Rng& rng, int64_t icase)
         bad.push_back(where == 0 ? std::clamp<int64_t>(n / 2 + rng.range(-1, 1), 0, n - 1) : where == 1 ? (rng.coin() ? 0 : n - 1) : rng.range(0, n - 1));
     }
     const auto salt = rng.next();
-    const auto real_valued = rng.coin(1, 3);
+    // values: small integers, an affine image of them (negative, non-integer), the same scaled to 1e-17 or spaced one ulp apart around
+    // 0.75 (comparisons of evaluations must be exact comparisons of doubles, whatever their magnitude or distance)
+    const auto vmode       = rng.range(0, 5);
     const auto F    = [&](const std::vector<int64_t>& p) -> double
     {
         if (bad_on && p == bad)
@@ -100,7 +102,8 @@ void tuner_case(vt::Rng& rng, int64_t icase)
             dist += std::abs(p[i] - corner[i]);
             bowl += (p[i] - dims[i] / 3) * (p[i] - dims[i] / 3);
         }
-        const auto affine = [&](const double v) { return real_valued ? (0.375 * v - 1.25) : v; }; // negative / non-integer values
+        const auto affine = [&](const double v)
+        { return vmode == 3 ? (0.375 * v - 1.25) : vmode == 4 ? (1e-17 * v) : vmode == 5 ? (0.75 + v * 1.1102230246251565e-16) : v; };
         switch (kind)
         {
         case 0: return affine(static_cast<double>((h * 2654435761LL >> 7) % 4));                  // random with many ties
